@@ -11,7 +11,9 @@ import (
 	"fmt"
 	"math"
 	"os"
+	"runtime"
 	"strconv"
+	"time"
 )
 
 type Item struct {
@@ -308,3 +310,31 @@ func TrappedStrings() []string { return nil }
 // ExpectTraps tells the engine that this harness reaches real-OS functions on
 // purpose (it inspects their arguments with TrappedStrings).
 func ExpectTraps() {}
+
+// ---- tasks (engine: coroutines with exhaustive scheduling; native: real goroutines) ----
+
+// Yield is a synchronisation point.
+func Yield() { runtime.Gosched() }
+
+// AtYield arranges for f to run at the k-th synchronisation point from now
+// (engine). Natively f runs from another goroutine after a short delay
+// proportional to k: the instant is not reproduced, only the event.
+func AtYield(k int, f func()) {
+	go func() {
+		time.Sleep(time.Duration(k) * 20 * time.Microsecond)
+		f()
+	}()
+}
+
+// Quiesce lets every other task run until it finishes or blocks.
+func Quiesce() { time.Sleep(30 * time.Millisecond) }
+
+// SchedBounds sets the engine's preemption bound and fairness limit.
+func SchedBounds(maxPreemptions, fairLimit int) {}
+
+// Yields returns the number of synchronisation points passed so far (engine).
+func Yields() int { return 0 }
+
+// QuiesceSteps lets the other tasks run for at most n synchronisation points
+// (engine); natively it waits a moment.
+func QuiesceSteps(n int) { time.Sleep(30 * time.Millisecond) }
